@@ -69,7 +69,9 @@ def _random(rnd):
             # f: the run fails (True), or ends with a CancelledError of its own ('self')
             'arrivals': [{'t': t, 'd': rnd.choice([0, 1, 1, 2, 3]),
                           'f': rnd.choice([True, True, 'self']) if rnd.random() < 0.25 else False} for t in times],
-            'stop_at': rnd.choice([0, 1, 2, 3, 5, 8, 12, 20]), 'stop_timeout': 60,
+            'stop_at': rnd.choice([0, 1, 2, 3, 5, 8, 12, 20]),
+            # (mostly ample; sometimes shorter than the work that is pending at the stop)
+            'stop_timeout': rnd.choice([60, 60, 60, 3, 4, 6]),
             # events without any data item (f_args=()): sent with block.event('put')
             'nodata': mode in 'ws' and rnd.random() < 0.2}
 
@@ -89,8 +91,7 @@ def stimuli(tier, seed, ctx):
         out = rnd.sample(out, lim)
     for _ in range(700 if tier == 'quick' else 12000):
         out.append(_random(rnd))
-        if out[-1]['nodata']:
-            out[-1]['stopdata'] = False
+        out[-1]['guard'] = min(out[-1]['guard'], out[-1]['stop_timeout'])     # (required by the block)
     return out
 
 
@@ -140,6 +141,8 @@ def execute(stim):
     async def coro(v=None, tag=None):
         if stim.get('nodata'):      # wait / start mode: runs start in arrival order
             st['nstart'] = v = st.get('nstart', 0) + 1
+            if v > st.get('nputs', 0):
+                v = 9               # all puts have started: this is the stop_data run
         rec('start', id=v)
         how = 'ok'
         try:
@@ -165,7 +168,9 @@ def execute(stim):
             probe = Probe('probe')
             spelled = {'w': 'wait', 'c': 'cancel', 's': 'start'}[mode] if stim['spell'] else mode
             sdata = {'value': 9, 'tag': 'stop', 'source': 'stopdata'} if stim['stopdata'] else None
-            if sdata:
+            if sdata and stim.get('nodata'):
+                sdata = {}          # a coroutine without arguments: the stop_data is an empty mapping
+            if sdata is not None:
                 sent[9] = dict(sdata)
             oa = edzed.OutputAsync(
                 'oa', coro=coro, mode=spelled, f_args=[] if stim.get('nodata') else ['value'],
@@ -193,6 +198,7 @@ def execute(stim):
                 elif a['f']:
                     fails.add(i)
                 rec('put', id=i)
+                st['nputs'] = i
                 data = {'tag': f'e{i}', 'extra': i * 7}
                 sent[i] = dict(data, value=i, source='_ext_')
                 if stim.get('nodata'):
@@ -247,4 +253,10 @@ def signature(stim, trace, why):
     if 'invariant' in why:
         return f"inv:{why['invariant']}:mode={stim['mode']}"
     e = why.get('event') or {}
+    if e.get('ev') == 'stopped':
+        t0 = [x['t'] for x in trace['ev'] if x['ev'] == 'stop']
+        if t0 and e['t'] > t0[0] + stim['stop_timeout'] + stim['guard']:
+            # the stop took longer than stop_timeout although the block was cancelled in time
+            return f"reject:stopped:overrun:mode={stim['mode']}"
+
     return f"reject:{e.get('ev')}:{e.get('kind', e.get('how', ''))}:mode={stim['mode']}"
